@@ -17,7 +17,7 @@ Strings travel as arrays of Unicode code points, integers as decimal strings.
   {"op":"hyp","s":[..]}                        -> {"plain":b,"tri":b,"nonul":b}
   {"op":"book","backend":s,"which":"book"|"fill","tree":[..],"col":[..],"var":[..]}
                                                -> {"lines":[[..]..],"slots":[null|{"off":n,"kind":s,"esc":b}..],"ok":[b..]}
-  {"op":"nameat","off":n,"line":[..]}          -> {"v":[..]|null}
+  {"op":"nameat","off":n,"line":[..]}          -> {"v":[..]|null,"vtri":[..]|null,"rest":[..]|null}  (nameAt, nameAtTri, text after the literal)
   {"op":"linestrs","lines":[[..]..]}           -> {"lits":[[..]..]|null}       (all string literals of the lines; null if one does not lex)
   {"op":"bank","pre":[..],"suf":[..],"bank":[..]} -> {"line":[..]}
 Run: lake env lean --run FaxVerif/C18/Driver.lean
@@ -99,7 +99,10 @@ def whyNot (c : PyConst) (text : Str) (ty : CTy) : String :=
     | some (v, rest) =>
       if rest ≠ [] then s!"the string literal ends early: it denotes {String.ofList v}, followed by {String.ofList rest}"
       else if ty ≠ .string then s!"recorded type {ty.name}, expected string"
-      else s!"the literal {t} denotes a different string: {String.ofList v}"
+      else if v ≠ (match c with | .str s => s | _ => []) then s!"the literal {t} denotes a different string: {String.ofList v}"
+      else match cppStringTriL text with
+        | none => s!"under trigraph replacement (ISO C++ before C++17) the literal {t} is read as {String.ofList (detri text)}, which is not one string literal"
+        | some vt => s!"under trigraph replacement (ISO C++ before C++17) the literal {t} is read as {String.ofList (detri text)} and denotes a different string: {String.ofList vt}"
   | .int n =>
     match cppIntL text with
     | none => s!"the emitted text {t} is not an integer literal any C++ type can hold"
@@ -205,7 +208,9 @@ def handle (line : String) : String :=
             ("ok", Json.arr (lines.map fun l => Json.bool (BookLineOk l)).toArray)])
       else if op == "nameat" then
         let off ← (← j.getObjVal? "off").getNat?
-        pure (Json.mkObj [("v", jopt (nameAt off (← cps (← j.getObjVal? "line"))))])
+        let line ← cps (← j.getObjVal? "line")
+        let rest : Option Str := (cppStringLit (line.drop off)).map (·.2)
+        pure (Json.mkObj [("v", jopt (nameAt off line)), ("vtri", jopt (nameAtTri off line)), ("rest", jopt rest)])
       else if op == "linestrs" then
         let ls ← (← j.getObjVal? "lines").getArr?
         let lines ← ls.toList.mapM cps
